@@ -190,7 +190,23 @@ Definition body (pre : bool) (msg : string) (i : nat) (st : pst) (r : parse_resu
       let stored : option parse_result :=
         if isnul || issp then
           let quoted := is_quoted_state (prev st) in
-          let sl := if quoted then match i with O => None | S j => slice msg (S (ts st)) j end
+          let sl := if quoted then
+                      (* fix ced041a: if message[startStr] == 'B' && message[startStr+1] == '\'' { startStr++ }
+                         — two index expressions, each panics when out of range; && short-circuits *)
+                      match get (ts st) msg with
+                      | None => None
+                      | Some b0 =>
+                          let start := if Ascii.eqb b0 "B" then
+                                         match get (S (ts st)) msg with
+                                         | None => None
+                                         | Some b1 => Some (if Ascii.eqb b1 sq then S (ts st) else ts st)
+                                         end
+                                       else Some (ts st) in
+                          match start, i with
+                          | Some s0, S j => slice msg (S s0) j      (* startStr++; endStr-- *)
+                          | _, _ => None
+                          end
+                      end
                     else slice msg (ts st) i in
           match sl with
           | None => None
@@ -272,8 +288,8 @@ Definition parse_full (msg : string) : outcome :=
 
 (* ---- what a change is expected to decode to ---- *)
 (* identifiers and types stay as printed (with their quotes); text values have the quote
-   doubling undone and Quoted = true.  For a bit string either reading is accepted by
-   [accepts]: the datum (quoted) or the raw literal (unquoted); [expected] picks the datum. *)
+   doubling undone and Quoted = true; a bit string B'0101' is its digits with Quoted = true
+   (decoder fix ced041a). *)
 Definition exp_val (v : value) : string * bool :=
   match v with
   | VNull => ("null", false)
@@ -306,7 +322,8 @@ Definition expected (c : change) : parse_result :=
   | CUpdate ns rel old new => mkPR "" (qualified ns rel) "UPDATE" (is_none new) (opt_cols new) (opt_cols old)
   (* a DELETE's old tuple is printed without an "old-key:" marker: it arrives in Columns *)
   | CDelete ns rel old => mkPR "" (qualified ns rel) "DELETE" (is_none old) (opt_cols old) []
-  (* several truncated relations arrive as ONE string "a.b, c.d" (see findings) *)
+  (* several truncated relations arrive as ONE string "a.b, c.d": the decoder has a single
+     Relation field and /repo's own TestTruncateCascade asserts the joined string *)
   | CTruncate rels _ _ => mkPR "" (print_rels rels) "TRUNCATE" false [] []
   end.
 
@@ -340,12 +357,22 @@ Fixpoint scan (br : bool) (stop : ascii -> bool) (m : smode) (s : string) : bool
 Definition type_stop (c : ascii) : bool := Ascii.eqb c "]".
 Definition type_ok (t : string) : bool := scan true type_stop MTop t.
 
+(* what format_type_be can print (TestDecoding.pgtype) is type_ok as soon as the built-in
+   spellings contain no bracket and no double quote (none does) — proved in ParseRoundtrip.v *)
+Definition builtin_char (c : ascii) : bool :=
+  negb (Ascii.eqb c "[") && negb (Ascii.eqb c "]") && negb (Ascii.eqb c dq).
+Definition pgtype_ok (t : pgtype) : bool :=
+  match t with TBuiltin w _ => str_all builtin_char w | _ => true end.
+
 (* unquoted values: no space, no single quote, no NUL *)
 Definition raw_char_ok (c : ascii) : bool :=
   negb (Ascii.eqb c " ") && negb (Ascii.eqb c sq) && negb (Ascii.eqb c zero).
 
+Definition not_sq (c : ascii) : bool := negb (Ascii.eqb c sq).
+
+(* bit strings: the digits contain no single quote (print_literal does not double inside B'..') *)
 Definition value_ok (v : value) : bool :=
-  match v with VRaw s => str_all raw_char_ok s | _ => true end.
+  match v with VRaw s => str_all raw_char_ok s | VBit b => str_all not_sq b | _ => true end.
 
 Definition col_ok (c : col) : bool := type_ok (c_type c) && value_ok (c_val c).
 Definition tuple_ok (t : tuple) : bool := forallb col_ok t.
@@ -361,54 +388,6 @@ Definition WF (c : change) : bool :=
   | CInsert _ _ new => last_tuple_ok new
   | CUpdate _ _ old new => (match old with None => true | Some o => tuple_ok o end) && last_tuple_ok new
   | CDelete _ _ old => last_tuple_ok old
-  end.
-
-Definition is_bit (v : value) : bool := match v with VBit _ => true | _ => false end.
-Definition tuple_no_bit (t : option tuple) : bool :=
-  match t with None => true | Some t => forallb (fun c => negb (is_bit (c_val c))) t end.
-Definition no_bit (c : change) : bool :=
-  match c with
-  | CInsert _ _ new => tuple_no_bit new
-  | CUpdate _ _ old new => tuple_no_bit old && tuple_no_bit new
-  | CDelete _ _ old => tuple_no_bit old
-  | _ => true
-  end.
-
-(* ---- the full statement's acceptance relation: per column, a bit string may come back as
-        the datum (quoted) or as the raw literal B'..' (unquoted) ---- *)
-Definition colval_eqb (a b : colval) : bool :=
-  String.eqb (cv_value a) (cv_value b) && String.eqb (cv_type a) (cv_type b) &&
-  Bool.eqb (cv_quoted a) (cv_quoted b).
-
-(* abstract expected map: printed name -> column (same overwrite rule as exp_cols) *)
-Fixpoint exp_abs (m : list (string * col)) (t : tuple) : list (string * col) :=
-  match t with
-  | [] => m
-  | c :: r => exp_abs (aset (quote_ident (c_name c)) c m) r
-  end.
-Definition opt_abs (t : option tuple) : list (string * col) :=
-  match t with None => [] | Some t => exp_abs [] t end.
-
-Definition accept_col (c : col) (v : colval) : bool :=
-  colval_eqb v (exp_colval c) ||
-  match c_val c with
-  | VBit b => colval_eqb v (mkCV (print_value (VBit b)) (c_type c) false)
-  | _ => false
-  end.
-
-Definition accept_cols (e : list (string * col)) (m : list (string * colval)) : bool :=
-  Nat.eqb (List.length e) (List.length m) &&
-  forallb (fun kc => match aget (fst kc) m with Some v => accept_col (snd kc) v | None => false end) e.
-
-Definition accepts (c : change) (r : parse_result) : bool :=
-  let e := expected c in
-  String.eqb (pr_txn r) (pr_txn e) && String.eqb (pr_rel r) (pr_rel e) &&
-  String.eqb (pr_op r) (pr_op e) && Bool.eqb (pr_notuple r) (pr_notuple e) &&
-  match c with
-  | CInsert _ _ new => accept_cols (opt_abs new) (pr_cols r) && accept_cols [] (pr_old r)
-  | CUpdate _ _ old new => accept_cols (opt_abs new) (pr_cols r) && accept_cols (opt_abs old) (pr_old r)
-  | CDelete _ _ old => accept_cols (opt_abs old) (pr_cols r) && accept_cols [] (pr_old r)
-  | _ => accept_cols [] (pr_cols r) && accept_cols [] (pr_old r)
   end.
 
 (* ---- correspondence case ---- *)
